@@ -172,19 +172,6 @@ theorem nextBar_guard (s s' : MoneyFlowIndex F) (b : Bar F) (y : F)
       · have hx : Rs.index s.deque j = none := by simp [Rs.index]; omega
         simp [c2, hx] at h
 
-/-- `reset` rebuilds exactly the state `new` builds (state equality: any history, any values) -/
-theorem reset_eq (s : MoneyFlowIndex F) (h : WF s) : s.reset = some (fresh s.period) := by
-  unfold reset
-  simp [fill_all _ _ _ h.size, fresh]
-
 theorem period_fn_eq (s : MoneyFlowIndex F) : s.period_fn = s.period := rfl
-
-theorem display_eq (fmt : F → String) (s : MoneyFlowIndex F) :
-    display fmt s = "MFI(" ++ toString s.period ++ ")" := rfl
-
-theorem default_eq : (default_ : Option (MoneyFlowIndex F)) = some (fresh 14) := by
-  unfold default_
-  rw [new_eq]
-  simp [unwrap, isizeMax]
 
 end TaRs.Gen.MoneyFlowIndex
